@@ -735,9 +735,22 @@ def _free_names(node, bound):
 def comp_function(ex, node, fr, kind):
     """[elt for x in S]  ->  application of a recursive function derived mechanically
     from the comprehension:  comp(S, caps) = [] if len(S)==0 else comp(S[:-1], caps) + [elt[x:=S[-1]]]"""
-    if len(node.generators) != 1 or node.generators[0].ifs or not isinstance(node.generators[0].target, ast.Name):
-        raise OutOfSubset("comprehension shape (one generator, simple target, no condition)")
     gen = node.generators[0]
+    tuple_target = isinstance(gen.target, ast.Tuple) and all(isinstance(e, ast.Name) for e in gen.target.elts)
+    if len(node.generators) != 1 or gen.ifs or not (isinstance(gen.target, ast.Name) or tuple_target):
+        raise OutOfSubset("comprehension shape (one generator, name or tuple-of-names target, no condition)")
+    if tuple_target:
+        # for x, y in S  ==  for _p in S with x := _p[0], y := _p[1]
+        import copy
+
+        elt = copy.deepcopy(node.elt)
+        for i, e in enumerate(gen.target.elts):
+            elt = _SubstTarget(e.id, (lambda i: lambda: ast.parse(f"_p[{i}]", mode="eval").body)(i)).visit(elt)
+        node2 = type(node)(elt=elt, generators=[ast.comprehension(target=ast.Name(id="_p", ctx=ast.Store()), iter=gen.iter, ifs=[], is_async=0)])
+        ast.copy_location(node2, node)
+        ast.fix_missing_locations(node2)
+        node2.lineno = node.lineno
+        return comp_function(ex, node2, fr, kind)
     it = ex.eval(gen.iter, fr)
     if isinstance(it, View):
         it = it.read(ex)
@@ -758,11 +771,15 @@ def comp_function(ex, node, fr, kind):
         S = it.yielded
     else:
         S = ex.to_sv(it)
+    if S.ty.kind == "val":  # iterating an opaque list value: its items
+        S = ex.to_sv(S, SEQ(VAL))
     caps = [nm for nm in _free_names(node.elt, {tname}) if nm in fr.env and isinstance(fr.env[nm], (SV, Ref))]
     cap_vals = [ex.to_sv(fr.env[nm]) for nm in caps]
-    ordinal = fr.cellvars.setdefault("_comp_n", 0)
-    fr.cellvars["_comp_n"] = ordinal + 1
-    fname = f"comp_{fr.fn_name.replace('contract:', '')}_{ordinal}"
+    top = ex.prefix.split(">")[0].split("#")[0].split(".")[-1].split(":")[-1]
+    if top in ("<lambda>",) or not top.isidentifier():
+        top = fr.fn_name.replace("contract:", "")
+    # named by the enclosing repository function and the line offset of the comprehension inside it
+    fname = f"comp_{top}_L{getattr(node, 'lineno', 0) - ex.line0}"
     sf = ex.w.specs.get(fname)
     if sf is None:
         # element type: evaluate the element expression on a fresh element
